@@ -227,7 +227,7 @@ func pickCluster(route *xdsresource.Route) (string, error) {
 	targetWeight := uint32(fastrand.Int31n(int32(totalWeight)))
 	for _, wc := range wcs {
 		currWeight += wc.Weight
-		if currWeight >= targetWeight {
+		if currWeight > targetWeight {
 			return wc.Name, nil
 		}
 	}
